@@ -82,6 +82,27 @@ inline const std::map<std::string, std::string>& badTable() {
     };
     return t;
 }
+// "byte sequence illegal in the encoding": enc-<context>-<variant>
+inline const std::map<std::string, std::string>& encBytes() {
+    static const std::map<std::string, std::string> t = {
+        {"c2-2", "\xC3" "A"}, {"c3-2", "\xE2" "A" "\x82"}, {"c3-3", "\xE2\x82" "A"},
+        {"c4-2", "\xF0" "A" "\x98\x80"}, {"c4-3", "\xF0\x9F" "A" "\x80"}, {"c4-4", "\xF0\x9F\x98" "A"},
+        {"over2", "\xC0\x80"}, {"over3", "\xE0\x80\x80"}, {"over4", "\xF0\x80\x80\x80"},
+        {"surr", "\xED\xA0\x80"}, {"above", "\xF4\x90\x80\x80"},
+    };
+    return t;
+}
+inline std::string encBad(const std::string& n) {   // n = "enc-<ctx>-<variant>"
+    size_t p = n.find('-', 4);
+    if (p == std::string::npos) return "<!BADTOKEN-NOT-IN-TABLE " + n + ">";
+    const std::string ctx = n.substr(4, p - 4), var = n.substr(p + 1);
+    auto it = encBytes().find(var);
+    if (it == encBytes().end()) return "<!BADTOKEN-NOT-IN-TABLE " + n + ">";
+    if (ctx == "tx") return "x" + it->second + "x";
+    if (ctx == "att") return "<a x=\"v" + it->second + "v\"/>";
+    if (ctx == "cm") return "<!--c" + it->second + "c-->";
+    return "<!BADTOKEN-NOT-IN-TABLE " + n + ">";
+}
 inline const char* prefName(const std::string& c) {
     return c == "<" ? "lt" : c == "&" ? "amp" : c == ">" ? "gt" : c == "'" ? "apos" : c == "Q" ? "quot" : "nosuch";
 }
@@ -96,8 +117,15 @@ inline std::string ws(Rng& r, bool required) {
     static const char* opt[] = {"", " ", "  ", "\t"};
     return required ? opt[1 + r.pick(3)] : opt[r.pick(4)];
 }
+// numbers that do not fit the table of code points: spelled in full (hexadecimal, decimal)
+inline const std::map<std::string, std::pair<std::string, std::string>>& hugeRefs() {
+    static const std::map<std::string, std::pair<std::string, std::string>> t = {
+        {"UHUGE", {"10000000000000000041", "18446744073709551681"}},      // 2^64 + 0x41: 20 hexadecimal / 20 decimal digits
+    };
+    return t;
+}
 inline std::string charRef(long cp, Rng& r) {
-    char b[32];
+    char b[40];
     switch (r.pick(3)) {
     case 0: snprintf(b, sizeof b, "&#%ld;", cp); break;
     case 1: snprintf(b, sizeof b, "&#x%lX;", cp); break;
@@ -112,6 +140,9 @@ inline std::string pieces(const json& ps, Rng& r, const Options& o) {
         if (f == "lit") {
             if (o.freeLetterRefs && c.size() == 1 && isalpha((unsigned char)c[0]) && r.coin(8)) out += charRef(symCode(c), r);
             else out += symUtf8(c);
+        } else if (f == "cref" && hugeRefs().count(c)) {
+            const auto& h = hugeRefs().at(c);
+            out += r.coin() ? "&#x" + h.first + ";" : "&#" + h.second + ";";
         } else if (f == "cref") out += charRef(symCode(c), r);
         else if (f == "pref") out += std::string("&") + prefName(c) + ";";
         else out += "&" + c + ";";   // eref
@@ -172,6 +203,7 @@ inline std::string token(const json& t, Rng& r, const Options& o) {
     if (k == "TX") return pieces(x, r, o);
     if (k == "CD") return "<![CDATA[" + symsUtf8(x) + "]]>";
     if (k == "ER") return "&" + n + ";";
+    if (k == "BAD" && n.compare(0, 4, "enc-") == 0) return encBad(n);
     if (k == "BAD") { auto it = badTable().find(n); return it == badTable().end() ? "<!BADTOKEN-NOT-IN-TABLE " + n + ">" : it->second; }
     return "<!UNKNOWN-TOKEN-KIND>";
 }
